@@ -12,6 +12,7 @@ import (
 	"testing"
 
 	"github.com/mgtv-tech/redis-GunYu/config"
+	"github.com/mgtv-tech/redis-GunYu/pkg/filter"
 	"github.com/mgtv-tech/redis-GunYu/pkg/rdb"
 	"github.com/mgtv-tech/redis-GunYu/pkg/redis/checkpoint"
 	"github.com/mgtv-tech/redis-GunYu/pkg/vfutil"
@@ -164,6 +165,21 @@ func TestVerifC11sites(t *testing.T) {
 			if u3.Slot != want3 {
 				s.Violate("site-slot", fmt.Sprintf("buildBisyncRdbReplayUnit(replaceHashTag=%v) entry %q is written as %q: unit records slot %d, HASH_SLOT(target key) = %d", rep, key, tk, u3.Slot, want3),
 					map[string]interface{}{"key_hex": hx, "site": "buildBisyncRdbReplayUnit", "replaceHashTag": rep, "got": u3.Slot, "want": want3})
+			}
+		}
+		// (4) the filter's slot test (filter.FilterSlot -> RangeList.IsSlotInList -> KeyToSlot): a black list of exactly
+		// HASH_SLOT(key) must reject the key, a white list of exactly that slot must accept it, its neighbours the opposite
+		{
+			nb := (want + 1) % 16384
+			fb, fw, fn := &filter.RedisKeyFilter{}, &filter.RedisKeyFilter{}, &filter.RedisKeyFilter{}
+			fb.InsertSlotBlackList([][]uint16{{want}})
+			fw.InsertSlotWhiteList([][]uint16{{want}})
+			fn.InsertSlotBlackList([][]uint16{{nb}})
+			gb, gw, gn := fb.FilterSlot(string(key)), fw.FilterSlot(string(key)), fn.FilterSlot(string(key))
+			s.Count("filter_slot_site")
+			if !gb || gw || gn {
+				s.Violate("site-slot", fmt.Sprintf("filter.FilterSlot(%q): black list [%d] rejects=%v (must), white list [%d] rejects=%v (must not), black list [%d] rejects=%v (must not); HASH_SLOT(key) = %d: the filter places the key in another slot (or in none)", key, want, gb, want, gw, nb, gn, want),
+					map[string]interface{}{"key_hex": hx, "site": "filter.FilterSlot", "want_slot": want, "black_rejects": gb, "white_rejects": gw, "neighbour_black_rejects": gn})
 			}
 		}
 		// the Lean model on the same keys: line = recorded slot, recorded slot, oracle (driver prints keyToSlot clusterHash spec)
